@@ -9,3 +9,4 @@ pub mod stats;
 pub mod c06;
 pub mod c03;
 pub mod c17;
+pub mod c16;
